@@ -1,0 +1,18 @@
+// Copyright (c) 2026 10X Genomics, Inc. All rights reserved.
+
+//go:build verif
+
+package core
+
+// Exports of unexported pure functions for the external verification
+// harness.  This file is only compiled with `-tags verif`.
+
+// VerifShellSafeQuote exposes shellSafeQuote.
+func VerifShellSafeQuote(s string) string {
+	return shellSafeQuote(s)
+}
+
+// VerifFormatArgs exposes formatArgs.
+func VerifFormatArgs(envs map[string]string, shellCmd string, argv []string) string {
+	return formatArgs(envs, shellCmd, argv)
+}
